@@ -744,10 +744,12 @@ func (e UnaryArithmetic) String() string {
 
 // unaryOperandString returns the text of the operand of a prefix operator. An
 // operand that begins with a prefix operator itself is set apart by a space:
-// "--1" would be read as a line comment and "!!x" as a single operator.
+// "--1" would be read as a line comment and "!!x" as a single operator. So is
+// a placeholder: the name of a named placeholder begins with ":", which the
+// scanner joins with a preceding "!" to the operator "!:".
 func unaryOperandString(operand QueryExpression) string {
 	switch operand.(type) {
-	case UnaryArithmetic, UnaryLogic:
+	case UnaryArithmetic, UnaryLogic, Placeholder:
 		return " " + operand.String()
 	}
 	return operand.String()
